@@ -22,7 +22,7 @@ INTRO = {
             "(matching subscription, holder) that is not the excluded publisher, is attached and is allowed by the filter — same fresh publication id, subscription's own id, "
             "`topic` in the details iff the policy is a pattern, arguments unchanged. The filter (`allowed_spec`, `make_filter_*`) is characterised separately incl. its odd cases "
             "(ids through `AsID`, empty strings skipped, an `eligible` list without valid ids restricts nobody — as coded). Stable ids, both error branches and the frame lemmas complete the statement.",
-            "Limits: queue overflow (an EVENT dropped for a blocked subscriber) is C07's; PUBLISHED vs the publisher's own EVENT order is unspecified (compared as a multiset); payload passthru options are outside the model."),
+            "Limits: queue overflow (an EVENT dropped for a blocked subscriber) is C07's; PUBLISHED vs the publisher's own EVENT order is unspecified (compared as a multiset)."),
     "C02": ("Every routed CALL gets exactly one final RESULT or ERROR", "rpc",
             "`dealer_wf` (calls / invocations / invocationByCall in bijection, callees attached, timers belong to pending calls) is preserved by every dealer function. "
             "`reply_owned`: a RESULT or ERROR(CALL) sent to x for request q is either the answer of `call` to the very CALL being processed, or (x,q) was pending before. "
@@ -30,7 +30,7 @@ INTRO = {
             "One `prompt_*` lemma per trigger shows the final reply is IN the output of that step and the three entries are gone: unroutable; final YIELD / ERROR by the owner; "
             "callee's session removed — including after a kill-mode CANCEL (`kill_cancel_then_callee_gone`, the repaired defect); CANCEL skip / killnowait; timer expiry. `junk_harmless`: "
             "unknown, foreign, late and duplicate answers change nothing.",
-            "Limits: \"caller keeps reading\" is an assumption (drops to a blocked caller and the RESULT retry loop are C07's); per-step statements, the trace corollary is stated where proved."),
+            "Limits: \"caller keeps reading\" is an assumption (drops to a blocked caller and the RESULT retry loop are C07's)."),
     "C03": ("Calls reach the right callee with payload and ids intact", "rpc",
             "`best_match_spec` (sound / complete / none): exact first, otherwise the longest matching prefix, otherwise the longest matching wildcard, the oracle deciding only between "
             "wildcards of equal length (Go map order). `select_spec` and `roundrobin_cyclic`. `invocation_spec`: one INVOCATION per first chunk to a member of the best registration, with its id, "
@@ -82,8 +82,25 @@ INTRO = {
 }
 
 
-def statements(pid):
-    p = os.path.join(VERIF, "coq", "Props", pid + ".v")
+HIST = {
+    "C02": "*Over whole histories* (`coq/Props/HistoriesC02.v`): for `run (init_realm cfg) ops` and EVERY operation list, the reply monitor of every call id (caller, request) "
+           "never fails on the history's event trace — `realm_reply_owned`: a RESULT / ERROR(CALL) q reaches x only after x sent CALL q; `realm_reply_unique`: after the final reply for (x,q) "
+           "any further reply for (x,q) is preceded by a new CALL q from x. Both are full-strength without authorizer (`_noauthz`) and for an authorizer that keeps the identity of CALL messages and "
+           "refuses none (`gate_fresh_call_safe`); in general they carry `along gate_fresh` (`_partial`). The full statement is FALSE of the model and of `realm.go` (`realm_reply_unique_refuted`, "
+           "a six-operation history): when the Authorizer refuses a FURTHER CHUNK of a pending progressive call, the realm answers ERROR(CALL,q) itself, no router state changes (which is what C10 demands of a "
+           "refusal), the call stays pending and the callee's RESULT q follows. C02 and C10 pull in opposite directions on this input (no router can leave the state unchanged AND treat the ERROR as the call's "
+           "final reply), so it is recorded here as a limit of the statement and not as a defect; the harness's reply monitor likewise treats a request id re-used while pending as ambiguous.",
+    "C03": "*Over whole histories* (`coq/Props/HistoriesC03.v`): `invocation_ids_increase` — every INVOCATION to y either has an id above all ids sent to y since y last joined, or repeats an id already sent "
+           "(a further chunk); `no_invocation_after_unregistered_partial` — after UNREGISTERED r, an INVOCATION naming r reaches the session only if REGISTERED r was sent to it in between or it is a further chunk "
+           "of a call routed earlier. As literally worded (no exception for further chunks) the statement is false of model and code (`invocation_after_unregistered_refuted`: shared registration, progressive call "
+           "in flight): the call in progress continues by design.",
+    "C05": "*Over whole histories* (`coq/Props/HistoriesC05.v`): `ended_session_silent` — once a session was attached before op i and is not after it, no later step's output is addressed to it until a JOIN with "
+           "that id occurs; `attached_only_by_join`.",
+}
+
+
+def statements(pid, fname=None):
+    p = os.path.join(VERIF, "coq", "Props", (fname or pid) + ".v")
     if not os.path.exists(p):
         return []
     src = open(p).read()
@@ -110,6 +127,13 @@ def main():
         else:
             lines.append("(`coq/Props/%s.v` not present yet.)" % pid)
         lines.append("")
+        if pid in HIST:
+            lines += [HIST[pid], ""]
+            for kind, name, body in statements(pid, "Histories" + pid):
+                if len(body) > 420:
+                    body = body[:420] + " …"
+                lines.append("* `%s` (%s): `%s`" % (name, kind.lower(), body.replace("`", "'")))
+            lines.append("")
         with open(os.path.join(VERIF, "docs", pid + ".md"), "w") as f:
             f.write("\n".join(lines))
     print("wrote", sorted(INTRO))
